@@ -179,18 +179,18 @@ func (r *Report) write(verifDir, tier string, seed int64, wall float64, c *Ctx, 
 		}
 	}
 	cov := map[string]interface{}{
-		"explanation":      explanation,
-		"not_decided":      notDecided,
-		"obligations":      total,
-		"discharged":       disch,
-		"rules":            sums,
-		"samples":          samples,
-		"checker_cmd":      strings.Join(os.Args, " "),
-		"exhaustive":       true,
-		"known_findings":   knownHit,
-		"all_obligations":  r.Obls,
-		"trusted_base":     trustedBase,
-		"analysis_notes":   r.Notes,
+		"explanation":     explanation,
+		"not_decided":     notDecided,
+		"obligations":     total,
+		"discharged":      disch,
+		"rules":           sums,
+		"samples":         samples,
+		"checker_cmd":     strings.Join(os.Args, " "),
+		"exhaustive":      true,
+		"known_findings":  knownHit,
+		"all_obligations": r.Obls,
+		"trusted_base":    trustedBase,
+		"analysis_notes":  r.Notes,
 	}
 	if c != nil {
 		var pk []string
